@@ -5,7 +5,9 @@ Real: every line of elftools reached by ELFFile(stream) and the enumeration batt
 Simulated: the file (SimStream with truncation / substitution overlay and accounting).
 """
 import os
+import resource
 import traceback
+import tracemalloc
 
 from ..core import env, runner, elfraw, elfbuild
 from ..core.prng import substream, run_seed, digest as pdigest, h64
@@ -18,6 +20,9 @@ K_OPS = 1024
 K_BYTES = 1024
 K_READ = 16
 MAX_INDEXED = 4096
+K_MEM = 64                      # allocation bound: K_MEM * W + MEM_BASE bytes live at once (tracemalloc peak) ...
+MEM_BASE = 4 << 20              # ... MEM_BASE covers what opening any file costs (ELFStructs etc.: about 1.2 MB)
+AS_LIMIT = 1 << 30              # address-space limit of a run's process (an allocation beyond it raises MemoryError)
 
 _STATE = {}
 
@@ -74,7 +79,9 @@ def _values(r, width, old, n, off):
     top = 8 * width
     c = [0, 1, 2, (1 << (top - 1)) - 1, 1 << (top - 1), (1 << top) - 2, (1 << top) - 1, n, n - 1, n + 1,
          max(0, n - off), old + 1, max(0, old - 1), old ^ (1 << (top - 1)), 0xff00, 0xffff, r.getrandbits(top),
-         r.getrandbits(min(top, 16)), 0xfffe, 0x10000]
+         r.getrandbits(min(top, 16)), 0xfffe, 0x10000,
+         # scaled sizes: still a multiple of whatever entry size the old value was a multiple of
+         old << 8, old << 12, old << 16, old << 20, old * 3]
     return r.choice(c) & ((1 << top) - 1)
 
 
@@ -275,7 +282,46 @@ def _image_bytes(spec):
     return env.corpus_bytes(img)
 
 
+def _vm():
+    """(VmPeak, VmSize, VmHWM, VmRSS) of this process in bytes; zeros where /proc is not available."""
+    out = {b'VmPeak': 0, b'VmSize': 0, b'VmHWM': 0, b'VmRSS': 0}
+    try:
+        with open('/proc/self/status', 'rb') as f:
+            for line in f:
+                k = line[:6].rstrip(b':')
+                if k in out:
+                    out[k] = int(line.split()[1]) * 1024
+    except OSError:
+        pass
+    return out[b'VmPeak'], out[b'VmSize'], out[b'VmHWM'], out[b'VmRSS']
+
+
 def execute_spec(spec):
+    """Allocation oracle (O4) in two stages: every run is screened by the growth of the process (peak virtual size / peak
+    resident size over the run, two /proc reads); a run that grew by more than the bound is executed again under
+    tracemalloc, whose peak decides.  A spec carrying trace_alloc (every replay file of an O4 violation) is decided by
+    tracemalloc directly, so the verdict of a replay does not depend on the screening."""
+    try:
+        soft, hard = resource.getrlimit(resource.RLIMIT_AS)
+        if soft == resource.RLIM_INFINITY or soft > AS_LIMIT:
+            resource.setrlimit(resource.RLIMIT_AS, (AS_LIMIT, hard))
+    except (ValueError, OSError):
+        pass
+    if spec.get('trace_alloc'):
+        return _execute(spec, True)
+    v0 = _vm()
+    out = _execute(spec, False)
+    v1 = _vm()
+    W = max(len(_image_bytes(spec)), 4096)
+    if max(v1[0] - v0[1], v1[2] - v0[3]) > K_MEM * W + MEM_BASE:
+        traced = _execute(dict(spec, trace_alloc=True), True)
+        out['probes']['alloc_screen_tripped'] = 1
+        if any('|O4|' in v['key'] for v in traced['violations']):
+            return traced
+    return out
+
+
+def _execute(spec, traced):
     from elftools.elf.elffile import ELFFile
     from elftools.common.exceptions import ELFError
     data = _image_bytes(spec)
@@ -290,9 +336,35 @@ def execute_spec(spec):
     def viol(key, check, expected, observed):
         violations.append(dict(key=key, check=check, expected=expected, observed=observed))
 
+    mem_limit = K_MEM * W + MEM_BASE
+
+    class Meter:
+        """tracemalloc peak over one guarded step, relative to what was live when the step began."""
+
+        def __enter__(self):
+            if traced:
+                tracemalloc.reset_peak()
+                self.base = tracemalloc.get_traced_memory()[0]
+            return self
+
+        def __exit__(self, *a):
+            return False
+
+        def over(self):
+            if not traced:
+                return None
+            grown = tracemalloc.get_traced_memory()[1] - self.base
+            return grown if grown > mem_limit else None
+
+    started_here = False
+    if traced and not tracemalloc.is_tracing():
+        tracemalloc.start(1)
+        started_here = True
     elf = None
+    m = Meter()
     try:
-        elf = ELFFile(stream)
+        with m:
+            elf = ELFFile(stream)
         log.append(('ctor', 'ok'))
         probes['ctor_ok'] = 1
     except ELFError as e:
@@ -309,8 +381,14 @@ def execute_spec(spec):
              [type(e).__name__, str(e)[:200]])
         log.append(('ctor', type(e).__name__))
 
+    g = m.over()
+    if g is not None:
+        viol('ctor|O4|alloc', 'memory: bytes allocated at once by the constructor', '<= %d*W + %d = %d' % (K_MEM, MEM_BASE, mem_limit), g)
+        log.append(('ctor', 'O4'))
     if elf is not None:
-        _battery(elf, stream, viol, log, probes)
+        _battery(elf, stream, viol, log, probes, Meter, mem_limit)
+    if started_here:
+        tracemalloc.stop()
     fired = stream.fired or stream.eof_fired
     kind = spec.get('kind', '?')
     return dict(spec=spec, violations=violations, digest=pdigest(log, stream.ops, stream.bytes_returned, stream.max_read_request),
@@ -319,7 +397,7 @@ def execute_spec(spec):
                 faults={kind: [1, 1 if fired else 0]}, probes=probes, sample=None)
 
 
-def _battery(elf, stream, viol, log, probes):
+def _battery(elf, stream, viol, log, probes, Meter, mem_limit):
     """The fixed enumeration battery: public API only, each line separately guarded so that one
     raising enumeration does not hide the next (raising *is* termination)."""
     state = {'budget': False}
@@ -327,10 +405,22 @@ def _battery(elf, stream, viol, log, probes):
     def guard(name, fn):
         if state['budget']:
             return None
+        m = Meter()
         try:
-            out = fn()
+            with m:
+                out = fn()
+            g = m.over()
+            if g is not None:
+                viol('battery|O4|alloc|%s' % name.split('#')[0], 'memory: bytes allocated at once', '<= %d' % mem_limit, g)
+                log.append((name, 'O4'))
             log.append((name, 'ok'))
             return out
+        except MemoryError as e:
+            w = _where(e.__traceback__)
+            viol('battery|O4|MemoryError|%s|%s' % (name.split('#')[0], w), 'memory: allocation beyond the address-space limit of the run',
+                 'no allocation beyond %d bytes' % AS_LIMIT, 'MemoryError')
+            log.append((name, 'MemoryError'))
+            return None
         except SimBudgetExceeded as e:
             w = _where(e.__traceback__)
             if e.kind == 'read_request':
@@ -351,6 +441,10 @@ def _battery(elf, stream, viol, log, probes):
             log.append((name, 'RecursionError'))
             return None
         except BaseException as e:
+            g = m.over()
+            if g is not None:
+                viol('battery|O4|alloc|%s' % name.split('#')[0], 'memory: bytes allocated at once', '<= %d' % mem_limit, g)
+                log.append((name, 'O4'))
             log.append((name, type(e).__name__))
             probes['battery_raised'] = probes.get('battery_raised', 0) + 1
             return None
